@@ -3806,7 +3806,12 @@ class C14(Oracle):
             k += 1
             name = names[k % len(names)]
             params = corr_win.valid_params(rng, name) if rng.random() < 0.8 else corr_win.near_valid_params(rng, name)
-            yield {'kind': 'reset', 'name': name, 'params': params, 'seed': rng.randrange(2**31)}
+            c = {'kind': 'reset', 'name': name, 'params': params, 'seed': rng.randrange(2**31)}
+            if name in ('rooms', 'crossing', 'keydoor', 'empty', 'teleport', 'memory'):
+                # cheap to search: many draws of the same parameter set (a layout that is unwinnable for one
+                # draw in a hundred is unwinnable)
+                c['more_seeds'] = [rng.randrange(2**31) for _ in range(8)]
+            yield c
 
     def from_line(self, line):
         t = line.split()
@@ -3869,6 +3874,14 @@ class C14(Oracle):
         return None, True
 
     def check(self, c):
+        out = self._check_one(c)
+        for sd in c.get('more_seeds') or []:
+            if out:
+                break
+            out = self._check_one(dict(c, seed=sd, more_seeds=None, light=True))
+        return out
+
+    def _check_one(self, c):
         from harness import corr_win
         from gym_gridverse.envs import terminating_functions as tf
         from gym_gridverse.envs import transition_functions as trf
@@ -3904,6 +3917,8 @@ class C14(Oracle):
             plan, exhausted = self._search(chain, term, goal_fn, s, True, 150000 if cells <= 25 else 30000)
         else:
             plan, exhausted = self._search(chain, term, goal_fn, s, False, 400000)
+        if plan is not None and c.get('light'):
+            return out
         if plan is not None and not stochastic:
             # the plan is a plan of the *environment*: its own step (membership checks included) takes it
             atoms_ = c['atoms'] if c['kind'] == 'state' else corr_win.SETUPS[name][0]
